@@ -14,6 +14,7 @@ import (
 	"fmt"
 	"os"
 	"reflect"
+	"regexp"
 	"strings"
 
 	"github.com/openconfig/goyang/pkg/yang"
@@ -38,6 +39,12 @@ func oracle(c rescorr.Case, ms *yang.Modules, errs []error, out *rescorr.GoOut) 
 			out.Findings = append(out.Findings, s)
 		}
 	}
+	// a schema with a `uses` of a grouping that does not exist has an error, wherever the statement
+	// stands and whatever became of the entry it was converted to (e.g. the body of an augment that
+	// contributes no node: the error sits on the augment entry, which is in no tree)
+	for _, u := range unresolvedUses(ms) {
+		add(fmt.Sprintf("%s: Process returned no errors for a schema with a uses of a grouping that does not exist: %s", clauseNone, u))
+	}
 	seenSide := map[*yang.Entry]bool{}
 	var side func(e *yang.Entry, path string, depth int)
 	side = func(e *yang.Entry, path string, depth int) {
@@ -46,7 +53,12 @@ func oracle(c rescorr.Case, ms *yang.Modules, errs []error, out *rescorr.GoOut) 
 		}
 		seenSide[e] = true
 		if len(e.Errors) > 0 {
-			add(fmt.Sprintf("recorded error after a clean Process on an entry kept at %s: %v", path, e.Errors[0]))
+			if strings.Contains(path, "#augmented[") {
+				add(fmt.Sprintf("%s: Process returned no errors, but the copy of a merged augment kept at %s carries a recorded error (%d in all): %v",
+					clauseNone, path, len(e.Errors), e.Errors[0]))
+			} else {
+				add(fmt.Sprintf("recorded error after a clean Process on an entry kept at %s: %v", path, e.Errors[0]))
+			}
 		}
 		for k, ch := range e.Dir {
 			side(ch, path+"/"+k, depth+1)
@@ -305,10 +317,53 @@ func main() {
 		}
 		cases = append(cases, c)
 	}
+	// barren augments: the body contributes no node to the target (nothing, only when / if-feature /
+	// description, only uses of empty groupings) and, for half of them, carries a fault - uses of a
+	// grouping that does not exist in many spellings, beside empty ones, beside decorations, a
+	// grouping whose only statement is dropped.  The error is recorded on the augment entry, which
+	// belongs to no tree: only merging the augment brings it to a place the last sweep covers.  Two
+	// thirds of the host sets are generated without deliberate faults, so that the planted one is
+	// the only error of the set
+	nBar := n / 4
+	cleanCfg := cfg
+	cleanCfg.BadRefs = false
+	for i := 0; i < nBar; i++ {
+		r := f.Rand(5000003 + i)
+		hostCfg := cleanCfg
+		if i%3 == 0 {
+			hostCfg = cfg
+		}
+		set := gen.Generate(r, hostCfg)
+		if i%6 == 1 {
+			gen.AddLateAugments(r, set)
+		}
+		pct := 50
+		if i%4 == 3 {
+			pct = 0
+		}
+		st := gen.AddBarrenAugments(r, set, pct)
+		names, texts := set.Files()
+		c := rescorr.Case{Names: names, Texts: texts, Extra: map[string]string{"label": "barren"}}
+		switch i % 8 {
+		case 2:
+			c.Extra["runs"] = runKindsAll[(i/8)%len(runKindsAll)]
+		case 5:
+			if pc, ok := pathCase(r, set, names, texts); ok {
+				c = pc
+			}
+		case 6:
+			c.Extra["text"] = "1"
+		}
+		c.Extra["barren"] = fmt.Sprint(st.Barren)
+		if st.Faulty > 0 {
+			c.Extra["barren_faulty"] = fmt.Sprint(st.Faulty)
+		}
+		cases = append(cases, c)
+	}
 	// repeated runs on one Modules value: the caller has processed before, and may have cleared the
 	// entry cache, read trees (lazy rebuild, lazily created rpc input/output), looked modules up with
 	// GetModule, or changed the options; the LAST Process run gets the oracle and the model comparison
-	runKinds := []string{"pp", "pcp", "prp", "pctp", "pop", "pgp"}
+	runKinds := runKindsAll
 	nRuns := n / 4
 	for i := 0; i < nRuns; i++ {
 		r := f.Rand(3000003 + i)
@@ -328,8 +383,11 @@ func main() {
 		c.Extra["runs"] = runKinds[i%len(runKinds)]
 		cases = append(cases, c)
 	}
-	cases = append(corpusCases(), cases...)
-	nCorpus := len(corpusCases())
+	nCorpus := 0
+	if os.Getenv("C04_NO_CORPUS") == "" { // maintenance aid: see what the generated sets find on their own
+		cases = append(corpusCases(), cases...)
+		nCorpus = len(corpusCases())
+	}
 	outs := rescorr.RunAll(cases, f)
 	distinct := lib.NewDistinct()
 	var clean, late, withErr, outside, skipped int64
@@ -384,6 +442,12 @@ func main() {
 		}
 		if rescorr.HasErrors(o.Go.Dump) {
 			withErr++
+			if o.Case.Extra["barren_faulty"] != "" {
+				res.Count("sets_with_errors_that_have_a_fault_in_an_augment_body_without_nodes", 1)
+				if ne := countErrs(o.Go.Dump); ne == 1 {
+					res.Count("sets_whose_only_error_is_the_fault_in_an_augment_body_without_nodes", 1)
+				}
+			}
 			if strings.Contains(strings.Join(o.Go.Dump, " "), "duplicate-node") || strings.Contains(strings.Join(o.Go.Dump, " "), "deviate-") {
 				late++
 			}
@@ -394,6 +458,9 @@ func main() {
 			}
 			if o.Case.Extra["odd_paths"] != "" {
 				res.Count("clean_sets_with_odd_prefixes_on_later_path_steps", 1)
+			}
+			if o.Case.Extra["barren"] != "" && o.Case.Extra["barren"] != "0" {
+				res.Count("clean_sets_with_augments_whose_body_contributes_no_node", 1)
 			}
 			if k := o.Case.Extra["runs"]; k != "" {
 				res.Count("clean_last_runs_of_a_sequence:"+k, 1)
@@ -421,11 +488,25 @@ func main() {
 	res.Write(f.Out)
 }
 
+var lateUsesRe = regexp.MustCompile(`^` + regexp.QuoteMeta(clauseNone) + `: Process returned no errors for a schema with a uses of a grouping that does not exist: uses \S+ in augment \S+ of module (\S+) at `)
+
+var runKindsAll = []string{"pp", "pcp", "prp", "pctp", "pop", "pgp"}
+
 func firstLine(s string) string {
 	if i := strings.IndexByte(s, '\n'); i > 0 {
 		return s[:i]
 	}
 	return s
+}
+
+func countErrs(d []string) int {
+	n := 0
+	for _, r := range d {
+		if strings.HasPrefix(r, "E ") {
+			n++
+		}
+	}
+	return n
 }
 
 // knownLateLoad recognises finding D04-P1 and nothing else: a files-on-disk run in which every
@@ -439,11 +520,22 @@ func knownLateLoad(o rescorr.Outcome) string {
 	for _, n := range o.Go.Extra["late_loaded"] {
 		late[n] = true
 	}
+	unapplied := map[string]bool{}
 	for _, f := range o.Go.Findings {
-		m, ok := strings.CutPrefix(f, "unapplied augment left at /")
-		if !ok || !late[m] {
-			return ""
+		if m, ok := strings.CutPrefix(f, "unapplied augment left at /"); ok {
+			unapplied[m] = true
 		}
+	}
+	for _, f := range o.Go.Findings {
+		if m, ok := strings.CutPrefix(f, "unapplied augment left at /"); ok && late[m] {
+			continue
+		}
+		// the same defect seen from the statement side: a uses of a missing grouping in the body of
+		// an augment that such a module keeps unapplied (and that is reported as left over above)
+		if sm := lateUsesRe.FindStringSubmatch(f); sm != nil && late[sm[1]] && unapplied[sm[1]] {
+			continue
+		}
+		return ""
 	}
 	return "D04-P1"
 }
@@ -559,6 +651,7 @@ func corpusCases() []rescorr.Case {
 			seq = append(seq, c2)
 		}
 	}
+	seq = append(seq, barrenCorpus()...)
 	return append(seq, []rescorr.Case{
 		// files on disk: only `main` is handed over, `base` is loaded by Process from the path.  The
 		// auto-loaded module has a short-hand choice / is the target of a colliding augment / has an
